@@ -201,8 +201,16 @@ WellFormed(t) ==
     [] t.k = "sum" -> \A p \in t.bg : WellFormed(p[1]) /\ p[2] > 0
 
 \* ---- the laws (evaluated by ExprOps in every reachable state, by Trace_Expr on records) ----
-\* C18: substitution of free symbols commutes with evaluation
-LawSubstEval(t, m) == Admissible(t, m) => Doit(Subst(t, m)) = Subst(Doit(t), m)
+\* C14 / C18: substitution of symbols commutes with evaluation.  Exactly, when the replacement
+\* terms are themselves unfolded; up to a further unfolding when a replacement is a folded
+\* (unevaluated) term.  A compound key does not survive unfolding, so the law speaks about
+\* symbol keys only.
+LeafKeyed(m) == \A key \in MapKeys(m) : key.k = "leaf"
+UnfoldedRepl(m) == \A x \in DOMAIN m : Doit(m[x][2]) = m[x][2]
+LawSubstEval(t, m) ==
+  (Admissible(t, m) /\ LeafKeyed(m)) =>
+     /\ Doit(Subst(t, m)) = Doit(Subst(Doit(t), m))
+     /\ UnfoldedRepl(m) => Doit(Subst(t, m)) = Subst(Doit(t), m)
 \* C18: a substitution for a symbol that only occurs bound leaves the sum unchanged
 LawBoundIdentity(t, m) ==
   (\A k \in MapKeys(m) : k.k = "leaf" /\ k.h \notin FreeSyms(t)) => Subst(t, m) = t
@@ -216,6 +224,14 @@ LawHomomorphism(t, m) ==
      LET r == Subst(t, m) IN
      r.k = "node" /\ r.h = t.h /\ r.at = t.at /\ Len(r.a) = Len(t.a) /\
      \A n \in DOMAIN t.a : r.a[n] = Subst(t.a[n], m)
-\* C14: unfolding twice is unfolding once
+\* C14: unfolding twice is unfolding once, and nothing foldable is left after unfolding
 LawDoitIdem(t) == Doit(Doit(t)) = Doit(t)
+RECURSIVE Folded(_)
+Folded(t) ==
+  CASE t.k \in {"leaf", "val"} -> FALSE
+    [] t.k = "node" -> t.h \in EvalClasses \/ \E x \in DOMAIN t.a : Folded(t.a[x])
+    [] t.k = "unf"  -> \E x \in DOMAIN t.a : Folded(t.a[x])
+    [] t.k = "pool" -> TRUE
+    [] t.k = "sum"  -> \E p \in t.bg : Folded(p[1])
+LawDoitUnfoldsAll(t) == ~ Folded(Doit(t))
 =============================================================================
